@@ -665,3 +665,48 @@ def inline_call(facts, v, depth=1):
     rv = prov_of(target).return_value()
     params = {i + 1: a for i, a in enumerate(v[2])}
     return subst(rv, params)
+
+
+def inline_all(facts, v, depth=3, stop=(), _seen=None, only=None):
+    """inline every call of a local, non-recursive function inside v (callee return value with arguments substituted), `depth`
+    levels deep; calls whose callee name is in `stop` are kept.  Calls that cannot be resolved stay as they are."""
+    _seen = _seen or ()
+
+    def go(x, d):
+        k = x[0]
+        if k == 'call':
+            args = [go(a, d) for a in x[2]]
+            y = ('call', x[1], args, x[3])
+            f = x[1]
+            if d > 0 and f.get('local') and f.get('name') not in stop and f.get('path') not in _seen and (only is None or only(f)):
+                target = facts.fn(f.get('path'))
+                if target is not None and not target.cfg.sccs():
+                    pa = dict(enumerate(args, 1))
+                    if '{closure#' in (f.get('path') or '') and len(args) == 2 and args[1][0] == 'agg' and args[1][1] == 'tuple':
+                        items = args[1][-1]
+                        pa = {1: args[0]}
+                        for i, it in enumerate(items.values() if isinstance(items, dict) else items):
+                            pa[i + 2] = it
+                    rv = prov_of(target).return_value()
+                    return inline_all(facts, subst(rv, pa), d - 1, stop, _seen + (f.get('path'),), only)
+            return y
+        if k == 'agg':
+            return ('agg', x[1], x[2], x[3], {f: go(y, d) for f, y in x[4].items()})
+        if k == 'field':
+            return project_field(go(x[1], d), x[2])
+        if k == 'variant':
+            return project_variant(go(x[1], d), x[2])
+        if k == 'phi':
+            return phi([go(y, d) for y in x[1]])
+        if k == 'binop':
+            return ('binop', x[1], go(x[2], d), go(x[3], d))
+        if k == 'unop':
+            return ('unop', x[1], go(x[2], d))
+        if k == 'cast':
+            return ('cast', x[1], go(x[2], d), x[3])
+        if k == 'mut':
+            return ('mut', go(x[1], d), x[2], x[3] if len(x) > 3 else ())
+        if k == 'update':
+            return ('update', go(x[1], d), {p: go(y, d) for p, y in x[2].items()})
+        return x
+    return go(v, depth)
